@@ -1,1 +1,2 @@
 pub mod bridge;
+pub mod sched;
